@@ -107,6 +107,7 @@ def run(chk):
     dup = [f for f in c04.triple_family() + c04.scope_family() + G.siblings(['v0', 'v1']) + c10.two_depths() if not (S.labels(f)[0] | S.labels(f)[1])]
     fam.append((['U2'], dup if thorough else dup[::2]))
     fam.append((['U2', 'W2'], G.unary_pairs(['v0', 'v1']) + G.swapped_duplicates()))
+    fam.append((['U2'], G.temporal_over_binders(['v0', 'v1']) + [f for f in dispatch_formulas() if not (S.labels(f)[0] | S.labels(f)[1])]))
     UC.run_family(chk, 'C01', fam, entries=entries)
     # the multi-formula entry points: the i-th result is the semantics of the i-th formula, whatever the order of heights
     P0, P1, X = ('prop', 'v0'), ('prop', 'v1'), ('var', 'x')
